@@ -8,7 +8,11 @@
 #include "verif_canon.h"
 #include "ascon-verif-ghost.h"
 #include "verif_harness.h"
+#if defined(VERIF_GHOST_HEADER)
+#include VERIF_GHOST_HEADER      /* other architectures: ghost_asm_riscv.h, ... */
+#else
 #include "ghost_asm.h"
+#endif
 
 spec_state verif_T0, verif_T1, verif_T2, verif_T3, verif_T4, verif_T5, verif_T6,
     verif_T7, verif_T8, verif_T9, verif_T10, verif_T11, verif_T12;
